@@ -9,7 +9,7 @@ CONSTANTS Mode, MaxOps
 VARIABLES built, evs, step, hist
 Z == [a |-> "", c |-> 0, kind |-> "", mid |-> 0, fs |-> 0, pts |-> <<>>, ipts |-> <<>>, rows |-> <<>>, res |-> "", g |-> <<2, -1>>,
       model |-> <<2, -1, 3>>, static |-> FALSE, rev |-> FALSE, order |-> "xt", it |-> 0, fids |-> <<>>, tgt |-> 0, norm |-> 2,
-      root |-> 1, full |-> FALSE, k |-> 0]
+      root |-> 1, full |-> FALSE, k |-> 0, gt |-> FALSE]
 Ev(cid, it) == [Z EXCEPT !.a = "ev", !.c = cid, !.it = it]
 Fix(mid, k) == [Z EXCEPT !.a = "fix", !.mid = mid, !.k = k]
 Pidon(cid, mid, fs, pts, res, static, rev) ==
@@ -35,6 +35,11 @@ Single ==
         n \in {1, 3}, ipts \in {<<0, 1>>, <<2>>, <<0, 1, 4>>}, res \in {"int", "intvec", "intx", "intdx", "intdt"}, st \in BOOLEAN, ord \in {"xt", "tx"}, rev \in BOOLEAN}
     \cup {[fsets |-> Sets1, ops |-> Three(Ritz(1, n, st, ord))] : n \in {1, 3}, st \in BOOLEAN, ord \in {"xt", "tx"}}
     \cup {[fsets |-> Sets1, ops |-> Three(Param(1, kap))] : kap \in {1, 5}}
+    \* the data function g given as a TABLE (one tensor object with the values at the rows) shared by an integro condition and a
+    \* Deep-Ritz condition / a second integro condition, all on static samplers over the same rows; both construction orders
+    \cup {[fsets |-> Sets1, ops |-> IF fst THEN <<a, b, Ev(1, 0), Ev(2, 0), Ev(1, 0)>> ELSE <<b, a, Ev(2, 0), Ev(1, 0), Ev(2, 0)>>] :
+             a \in {[Integro(1, 3, ipts, "int", TRUE, ord, FALSE) EXCEPT !.gt = TRUE] : ipts \in {<<0, 1>>, <<2>>}, ord \in {"xt", "tx"}},
+             b \in {[Ritz(2, 3, TRUE, "xt") EXCEPT !.gt = TRUE], [Integro(2, 3, <<0, 1, 4>>, "int", TRUE, "xt", TRUE) EXCEPT !.gt = TRUE]}, fst \in BOOLEAN}
 \* ---- histories
 Cands == << Pidon(1, 1, 1, <<1, 3, 2>>, "u_f", FALSE, FALSE),
             Pidon(2, 1, 1, <<4, 0>>, "echo", FALSE, TRUE),
